@@ -64,6 +64,7 @@ class Locks:
                         self.by_payload[payload].append((p, f["name"]))
         self._guard_idx = {}
         self._classes_cache = {}
+        self.raw = []         # (body, held local, class A, acquiring call, class B, via)
         self.direct = {}      # body id -> [(Call, class, mode)]
         self.summ_acq = {}    # body id -> set(class)
         self.ret_hold = {}    # body id -> set(class)
@@ -427,6 +428,10 @@ class Locks:
                     held -= self.releasers.get(n, set())
                 if b.id in self.releasers:
                     held -= self.releasers[b.id]
+                for l in held_locals:
+                    for A in self.classes_of_local(b, l, gl[l]):
+                        for B, via in acq:
+                            self.raw.append((b, l, A, c, B, via))
                 for A in held:
                     for B, via in acq:
                         if A == B and via != "direct":
@@ -439,6 +444,53 @@ class Locks:
                 cur.add(c.dest[0])
         elif t[0] == "yield":
             pass
+
+
+def _owner_key(b, op, lock_fields, depth=10):
+    """(root local, field-name prefix) of the object whose lock field `op` refers to; None if not understood.
+    `&(*_t).context` -> (_t, ()); `&(*_1).a.b_lock` -> (_1, ('a',)); a plain `&Thread` argument -> (root, ())"""
+    p = op_place(op)
+    if p is None:
+        return None
+    local, projs = p[0], list(p[1])
+    prefix = []
+    for _ in range(depth):
+        names = [pr[3] for pr in projs if isinstance(pr, list) and pr[0] == "f" and len(pr) == 4]
+        fields = [(pr[1], pr[3]) for pr in projs if isinstance(pr, list) and pr[0] == "f" and len(pr) == 4]
+        if fields and fields[-1] in lock_fields:
+            names = names[:-1]
+        prefix = names + prefix
+        ds = [d for d in b.defs_of(local)]
+        if len(ds) != 1:
+            return (local, tuple(prefix))
+        d = ds[0]
+        if d[0] == "assign":
+            rv = d[3]
+            if rv[0] == "ref":
+                local, projs = rv[2][0], list(rv[2][1])
+                continue
+            if rv[0] == "rawptr":
+                local, projs = rv[1][0], list(rv[1][1])
+                continue
+            if rv[0] in ("use", "cast"):
+                q = op_place(rv[1] if rv[0] == "use" else rv[2])
+                if q is None:
+                    return (local, tuple(prefix))
+                local, projs = q[0], list(q[1])
+                continue
+            return (local, tuple(prefix))
+        if d[0] == "call":
+            c = d[2]
+            if c.args and (c.res.endswith("::deref") or c.res.endswith("::deref_mut") or c.res.endswith("::as_ref") or c.res.endswith("::borrow")):
+                q = op_place(c.args[0])
+                if q is None:
+                    return (local, tuple(prefix))
+                local, projs = q[0], list(q[1])
+                prefix = ["<deref>"] + prefix
+                continue
+            return (local, tuple(prefix))
+        return (local, tuple(prefix))
+    return (local, tuple(prefix))
 
 
 def _moved_operands(rv):
@@ -580,4 +632,64 @@ def run(fb, rep):
     for (a, b_), e in sorted(ordered.items()):
         if a != b_ and b_ in graph.get(a, ()):
             rep.exception(R, "%s -> %s" % (a, b_), e["reason"])
+    same_instance_order(L, rep)
     return L
+
+
+def same_instance_order(L, rep):
+    """E5b — the instance orders of the table are about *different* objects (ancestor/descendant).  Two locks of ONE object
+    (both receivers are fields of the same owner expression, the owner not re-assigned in between) must be taken in one
+    order everywhere; no exemption applies to these edges."""
+    R = "E5b"
+    rep.rule(R, "two locks of one object are acquired in the same order at every site (no instance-order exemption applies)")
+    lock_fields = set(L.fields)
+    graph = defaultdict(set)
+    sites = defaultdict(list)
+    n = 0
+    for b, l, A, c, B, via in L.raw:
+        if A == B or A.startswith("<") or B.startswith("<"):
+            continue
+        # the acquisition that produced the held local
+        ev = None
+        back = _back_locals(b, l)
+        for c0 in b.calls():
+            if c0.dest is None or c0.dest[1] or c0.dest[0] not in back or not c0.args:
+                continue
+            if (ACQUIRE.get(c0.res) or ACQUIRE.get(c0.fn or "")) or any(n_ in L.ret_hold and L.ret_hold[n_] for n_ in c0.names()):
+                ev = c0
+        if ev is None or ev.target is None:
+            continue
+        ka = _owner_key(b, ev.args[0], lock_fields)
+        if via == "direct":
+            kb = _owner_key(b, c.args[0], lock_fields)
+        elif c.args and any(B in L.ret_hold.get(n_, ()) or B in {cl for _, cl, m in L.direct.get(n_, []) if m != "t"} for n_ in c.names()):
+            kb = _owner_key(b, c.args[0], lock_fields)   # a method that locks a field of its receiver
+        else:
+            kb = None
+        if ka is None or kb is None or ka != kb:
+            continue
+        root = ka[0]
+        redefs = set()
+        for d in b.defs_of(root):
+            if d[0] != "arg":
+                redefs.add(d[1])
+        if c.bb != ev.target and c.bb not in b.reachable(ev.target, avoid_blocks=redefs - {ev.bb}):
+            continue
+        n += 1
+        graph[A].add(B)
+        sites[(A, B)].append((b.id, c.where()))
+    rep.extra["same_instance_edges"] = sorted("%s -> %s (%s)" % (a, b_, ", ".join(sorted({s[0].rsplit("::", 1)[-1] for s in sites[(a, b_)]}))) for a in graph for b_ in graph[a])
+    rep.floor(R, "same-object lock pairs", n, 2)
+    nodes = set(graph) | {b_ for v in graph.values() for b_ in v}
+    comps = [c for c in sccs(sorted(nodes), graph) if len(c) > 1]
+    for comp in comps:
+        ex = []
+        for a in sorted(comp):
+            for b_ in sorted(graph.get(a, ())):
+                if b_ in comp:
+                    bid, where = sites[(a, b_)][0]
+                    ex.append("%s -> %s in %s (%s)" % (a, b_, bid, where))
+        rep.violation(R, "same-object-order|%s" % " <-> ".join(sorted(comp)),
+                      "two locks of the same object are acquired in both orders: " + "; ".join(ex[:6]), "")
+    if not comps:
+        rep.ok(R, "same-object lock pairs: %d sites, %d ordered class pairs, one order each" % (n, sum(len(v) for v in graph.values())))
